@@ -81,7 +81,7 @@ class SynthWorld:
 
     def __init__(self, ctx, feat=None, reps=REPS, deciders=DECIDERS, policies=None, delta=(0, 0, 0, 1, 1, 2, 3, 4),
                  gene_lengths=(1, 2, 3, 8, 32, 64, 256), spec=None, order_seed=None, shared_random=None, config=None,
-                 rchooser=None):
+                 rchooser=None, built=None):
         install_set_order()
         install_gene_read_cap()
         self.ctx = ctx
@@ -96,7 +96,7 @@ class SynthWorld:
         if self.order_seed:
             ctx.faults["set_order"] += 1
         set_order_seed(self.order_seed)
-        self.built = Built(self.spec)
+        self.built = built if built is not None else Built(self.spec)  # built: real shipped classes (corpus stratum)
         self.ref = Ref(self.spec, self.built)
         self.rep_kind = config["rep_kind"]
         self.decider_kind = config["decider_kind"]
@@ -395,3 +395,39 @@ def render_value(v, ref):
         return show(canon(v, ref))
     except Exception as e:  # pragma: no cover
         return f"<unrenderable {type(e).__name__}>"
+
+
+# ---------------------------------------------------------------- corpus stratum (shipped grammars and test-suite hierarchies)
+_CORPUS = None
+
+
+def corpus():
+    """(specifications, skipped) of the shipped grammars and the test-suite hierarchies, introspected independently (sim.corpus)"""
+    global _CORPUS
+    if _CORPUS is None:
+        import os
+        from .corpus import all_corpus_specs
+
+        _CORPUS = all_corpus_specs(os.environ.get("VERIF_REPO", "/repo"))
+    return _CORPUS
+
+
+def corpus_directed(tier, per_spec_quick=4, per_spec_thorough=16, base=10**6):
+    try:
+        n = len(corpus()[0])
+    except BaseException:
+        return []
+    k = per_spec_quick if tier == "quick" else per_spec_thorough
+    return [{"run_index": base + i * 100 + j, "params": {"corpus": i}} for i in range(n) for j in range(k)]
+
+
+def corpus_world(ctx, idx, feat, **kw):
+    """a SynthWorld over the REAL classes of corpus entry idx (no re-declaration: the classes are shared by the whole process)"""
+    from .corpus import CorpusBuilt
+
+    spec, cls_by_name = corpus()[0][idx]
+    ctx.stat("corpus_runs")
+    ctx.log("corpus", spec["origin"])
+    w = SynthWorld(ctx, feat=feat, spec=spec, built=CorpusBuilt(spec, cls_by_name), **kw)
+    w.is_corpus = True
+    return w
